@@ -29,6 +29,7 @@ func (eng *Engine) verifyFunction(fn *ssa.Function, con *Contract, pkg *PkgInfo)
 		fc.nowrap = con.Nowrap
 	}
 	fc.findLoops()
+	fc.noteTypes(fn)
 	init := &State{Heap: map[string]Term{}, Gh: map[string]Term{}}
 	init.NA = vc.sc.declare("NA@0", "Int")
 	fc.na0 = init.NA
